@@ -164,6 +164,7 @@ func runThorough(c *Check, fn checkFn) {
 		}()
 		l386 := LoadWith(repoDir(), nil, []string{"GOARCH=386"})
 		sub := &Check{ID: c.ID, Tier: "thorough", Funcs: map[string]bool{}, Extra: map[string]interface{}{}, L: l386}
+		defer withLoaded(l386, c.L)()
 		fn(sub)
 		nbad := 0
 		for _, o := range sub.Obs {
@@ -226,6 +227,7 @@ func runThorough(c *Check, fn checkFn) {
 			}()
 			lm := LoadWith(repoDir(), ov, nil)
 			sub := &Check{ID: c.ID, Tier: "thorough", Funcs: map[string]bool{}, Extra: map[string]interface{}{}, L: lm}
+			defer withLoaded(lm, c.L)()
 			fn(sub)
 			var keys []string
 			for _, o := range sub.Obs {
@@ -250,5 +252,91 @@ func runThorough(c *Check, fn checkFn) {
 		if r["result"] == "MISSED" {
 			fmt.Printf("SELF-VALIDATION WARNING: check %s no longer detects seeded change %v\n", c.ID, r["seed"])
 		}
+	}
+
+	// ---- 3. negative controls: committed behaviour-preserving refactorings (/verif/negctl/*/patch.diff) that touch a
+	// package this check analyses are applied in memory; the check must stay silent on them
+	pkgs := map[string]bool{}
+	for f := range c.Funcs {
+		if i := strings.Index(f, ".("); i >= 0 {
+			pkgs[f[:i]] = true
+		} else if i := strings.LastIndex(f, "."); i >= 0 {
+			pkgs[f[:i]] = true
+		}
+	}
+	negRoot := filepath.Join(home(), "negctl")
+	nents, _ := os.ReadDir(negRoot)
+	var nres []map[string]interface{}
+	nrun, nsilent := 0, 0
+	for _, e := range nents {
+		if !e.IsDir() {
+			continue
+		}
+		pf := filepath.Join(negRoot, e.Name(), "patch.diff")
+		pb, err := os.ReadFile(pf)
+		if err != nil {
+			continue
+		}
+		touches := false
+		for _, fp := range parseUnifiedDiff(string(pb)) {
+			if pkgs[filepath.Dir(fp.path)] {
+				touches = true
+			}
+		}
+		if !touches {
+			continue
+		}
+		r := map[string]interface{}{"control": e.Name()}
+		ov, err := overlayForPatch(repoDir(), pf)
+		if err != nil {
+			r["result"] = "skipped: " + err.Error()
+			nres = append(nres, r)
+			continue
+		}
+		nrun++
+		func() {
+			defer func() {
+				if rec := recover(); rec != nil {
+					r["result"] = fmt.Sprintf("UNDECIDED on control: %v", rec)
+				}
+			}()
+			lm := LoadWith(repoDir(), ov, nil)
+			sub := &Check{ID: c.ID, Tier: "thorough", Funcs: map[string]bool{}, Extra: map[string]interface{}{}, L: lm}
+			defer withLoaded(lm, c.L)()
+			fn(sub)
+			var keys []string
+			for _, o := range sub.Obs {
+				if !o.OK && !o.Info {
+					keys = append(keys, o.Key())
+				}
+			}
+			sort.Strings(keys)
+			if len(keys) > 0 {
+				r["result"] = "FALSE ALARM"
+				r["violations"] = keys
+			} else {
+				r["result"] = "silent"
+				nsilent++
+			}
+		}()
+		nres = append(nres, r)
+	}
+	c.Extra["negative_controls"] = map[string]interface{}{"controls_run": nrun, "controls_silent": nsilent, "results": nres,
+		"note": "behaviour-preserving refactorings written by fresh sub-agents and validated (build + package tests); applied in memory; the check must report nothing on them"}
+	for _, r := range nres {
+		if r["result"] != "silent" && !strings.HasPrefix(fmt.Sprint(r["result"]), "skipped") {
+			fmt.Printf("SELF-VALIDATION WARNING: check %s is not silent on negative control %v: %v\n", c.ID, r["control"], r["result"])
+		}
+	}
+}
+
+// withLoaded makes l the program the name-based helpers (transparent helpers) refer to; the returned function
+// restores prev.
+func withLoaded(l, prev *Loaded) func() {
+	curL = l
+	transpMemo = nil
+	return func() {
+		curL = prev
+		transpMemo = nil
 	}
 }
